@@ -109,6 +109,70 @@ def _union_of_ordinals(e: ast.AST, v2o: str):
     return None, None
 
 
+def _kwargs_handed_on_whole(prog: Program, col: Collector, refs: Refs):
+    """The einsum front ends choose the semiring from `kwargs.pop("backend", <default>)`.  A front end that delegates to a sibling with
+    `**kwargs` AFTER it has popped a key the sibling pops too hands on a mapping without that key: the sibling silently falls back to its
+    default (the (add, mul) semiring).  Typestate of the kwargs mapping along the statement CFG."""
+    from ..cfg import CFG
+    col.rule("R09.10", "a front end that delegates with **kwargs has not already consumed a key (backend, plates) the delegate reads from its own kwargs", floor=1)
+    mod = prog.modules.get("funsor.einsum")
+    if mod is None:
+        raise AnalysisError("module funsor.einsum not found")
+    funcs = [f for f in prog.functions_in(mod) if not isinstance(f.node, ast.Lambda) and f.node.args.kwarg is not None]
+
+    def pops(f):
+        kw = f.node.args.kwarg.arg
+        out = {}
+        for st in walk_no_nested(f.node):
+            if isinstance(st, ast.stmt):
+                for c in ast.walk(st):
+                    if isinstance(c, ast.Call) and isinstance(c.func, ast.Attribute) and c.func.attr in ("pop", "get") and isinstance(c.func.value, ast.Name) and c.func.value.id == kw \
+                            and c.args and isinstance(c.args[0], ast.Constant) and isinstance(c.args[0].value, str):
+                        out.setdefault(c.args[0].value, []).append((st, c.func.attr))
+        return out
+
+    by_name = {f.name: f for f in funcs}
+    n = 0
+    for f in funcs:
+        kw = f.node.args.kwarg.arg
+        mine = pops(f)
+        g_cfg = None
+        for st in walk_no_nested(f.node):
+            if not isinstance(st, ast.stmt) or isinstance(st, (ast.If, ast.For, ast.While, ast.With, ast.Try)):
+                continue
+            for c in ast.walk(st):
+                if not (isinstance(c, ast.Call) and any(k.arg is None and isinstance(k.value, ast.Name) and k.value.id == kw for k in c.keywords)):
+                    continue
+                callee = by_name.get(norm(c.func).rsplit(".", 1)[-1])
+                if callee is None:
+                    continue
+                n += 1
+                theirs = pops(callee)
+                explicit = {k.arg for k in c.keywords if k.arg}
+                construct = f"{f.fq}::{norm(c)[:50]}"
+                lost = []
+                for key in theirs:
+                    if key in explicit:
+                        continue
+                    for pst, how in mine.get(key, []):
+                        if how != "pop":
+                            continue
+                        if g_cfg is None:
+                            g_cfg = CFG(f.node)
+                        a, b = g_cfg.nodes_for(pst), g_cfg.nodes_for(st)
+                        if not a or not b:
+                            continue
+                        if any(True for _ in g_cfg.paths(a[0], b, limit=1)) and pst is not st:
+                            lost.append((key, pst))
+                if lost:
+                    key, pst = lost[0]
+                    col.violation(construct, f"`{kw}.pop({key!r}, …)` at line {pst.lineno} removes the key before `{norm(c)[:40]}` hands `**{kw}` on, and `{callee.name}` reads {key!r} from its "
+                                  f"own kwargs: it falls back to its default - for 'backend' the (add, mul) semiring - so a log-space or max-plus einsum is evaluated as a plain sum-product", f.loc(st))
+                else:
+                    col.ok(construct, f"every key `{callee.name}` reads ({sorted(theirs)}) is still in `{kw}` or passed explicitly", f.loc(st))
+    col.cur.analysed["delegating_calls"] = n
+
+
 def run(prog: Program, col: Collector, tier: str, refs: Optional[Refs] = None, cat: Optional[Catalogue] = None):
     refs = refs or Refs(prog)
     cat = cat or Catalogue(prog, refs)
@@ -319,6 +383,7 @@ def run(prog: Program, col: Collector, tier: str, refs: Optional[Refs] = None, c
     # ---------------------------------------------------------------- prerequisites shared from other properties: what a plate product normalises /
     # evaluates to (C08 R08.7: the red_op-is-bin_op branch reduces every operand over ALL plates, so an operand that does not mention
     # the plate is raised to its size) and the (logaddexp, add) kernels of the einsum route (C15 R15.8)
+    _kwargs_handed_on_whole(prog, col, refs)
     from . import algebra, numerics
     algebra.r_same_op(prog, col, refs, cat, "R09.6")
     algebra.r_receiver_narrowed_reduce(prog, col, refs, cat, "R09.7")
